@@ -312,10 +312,12 @@ def _fmt(x):
     return s if len(s) < 220 else s[:217] + '...'
 
 
-def rule_r6(repo, tier):
+def rule_r6(repo, tier, only_bitmap=False):
     rr = RuleResult('C08.R6', 'compile / replay differential: compiled templates emit the same trace as the plain walk')
     n = 0
     for name, members in sorted(curated_templates().items()):
+        if only_bitmap and not any(k in name for k in ('222', '223', '224', '225', '232', '235', '237', 'bitmap', 'marker', 'quality')):
+            continue
         ok, detail = compare(repo, name, members, rr)
         n += 1
         rr.instance('template "%s": %s' % (name, 'traces agree' if ok else 'DIFFER'))
@@ -323,6 +325,9 @@ def rule_r6(repo, tier):
             key = KNOWN_KEYS.get(name, 'template:%s' % name)
             rr.fail('differential:%s' % key, 'pybufrkit/templatecompiler.py', 'template "%s" (%s): %s' % (name, ' '.join(_mname(m) for m in members), detail),
                     witness={'template': name})
+    if only_bitmap:
+        rr.require_floor(10)
+        return rr
     # breadth: all pairs (and, thorough, triples over a reduced alphabet) of members
     syms = sorted(SYMBOLS)
     pairs = list(itertools.product(syms, repeat=2))
